@@ -27,6 +27,10 @@ claimed = {
          "crash-image enumeration + TLC check of the durability rule (NfsSpec hist/durable) and FsStruct on every recovered image", "5 C01"),
  "C07": ("model_checking", "Same engine as C01 with workloads dominated by UNSTABLE writes to several files, COMMITs and metadata operations, unstable option on and off: the durable index advances only on what the replies promise (committed level, COMMIT to the last write of that file), so a recovered state must be a prefix containing everything acknowledged stable or committed; READ-after-UNSTABLE, committed >= requested and the write-verifier rules (constant within an instance, different across instances) are part of NfsSpec's WRITE/COMMIT rules.",
          "crash-image enumeration + NfsSpec stability/verifier rules checked by TLC", "5 C07"),
+ "C17": ("model_checking", "SimpleSpec.tla states the 30-file server (sizes, hole/count/4096 rejections, exact data and end-of-file flag, FILE_SYNC); recorded sequences over valid and invalid inode numbers and boundary-dense offsets/counts/sizes (incl. 2^64-1), restarts, and every crash point (plus loss sets) of recorded disk streams are validated by TLC: the recovered files must equal the state after k calls for some k between acknowledged and invoked. Concurrent linearizability of simple/ is covered by the per-inode lock argument only through C03's engine when built (see notes).",
+         "trace validation + crash-point enumeration against SimpleSpec (TLC)", "5 C17"),
+ "C18": ("model_checking", "KvsSpec.tla: multi-put installs all pairs or none (later pairs of a key win), durable on return, get returns the latest put; sequences over the key-range boundaries with 1..12 pairs per put and overlapping keys, restarts, and every crash point (plus loss sets) of the disk stream are validated by TLC (recovered store = state after k puts, acked <= k <= invoked).",
+         "trace validation + crash-point enumeration against KvsSpec (TLC)", "5 C18"),
 }
 checks = []
 for pid, (cat, text, tech, ref) in claimed.items():
